@@ -1043,11 +1043,20 @@ def pad(tensor, padding, value=0.0):
         cores = [tnf.pad(c, (0, 0, pad[0], pad[1], 0, 0), value=0)
                  for c, pad in zip(tensor.cores, padding)]
         if value != 0:
-            # constant fill outside the original block: value * (ones - indicator of the block), two rank-one terms
-            ones = [tn.ones_like(c[:1, :, :1]) for c in cores]
-            block = [tnf.pad(tn.ones_like(c[:1, :, :1]), (0, 0, pad[0], pad[1], 0, 0), value=0)
-                     for c, pad in zip(tensor.cores, padding)]
-            return torchtt._tt_base.TT(cores) + value*(torchtt._tt_base.TT(ones) - torchtt._tt_base.TT(block))
+            # constant fill outside the original block: value * indicator of the complement of the block. The indicator has rank 2
+            # ("inside so far" / "already outside") and only entries 0 and 1, so nothing cancels inside the block
+            d = len(cores)
+            outside = []
+            for k, (c, pad) in enumerate(zip(tensor.cores, padding)):
+                inside = tnf.pad(tn.ones_like(c[0, :, 0]), (pad[0], pad[1]), value=0)
+                core = tn.zeros((1 if k == 0 else 2, inside.shape[0], 1 if k == d-1 else 2), dtype=c.dtype, device=c.device)
+                core[0, :, 0] = 1-inside if k == d-1 else inside
+                if k < d-1:
+                    core[0, :, 1] = 1-inside
+                if k > 0:
+                    core[1, :, -1] = 1
+                outside.append(core)
+            return torchtt._tt_base.TT(cores) + value*torchtt._tt_base.TT(outside)
 
     return torchtt._tt_base.TT(cores)
 
